@@ -266,3 +266,45 @@ Example C20_rearm_example :
   s_que st' = [] /\ s_timers st' = [39720] /\
   nd_status (s_node st' 1%nat) = St_delayed.
 Proof. vm_compute. repeat split. Qed.
+
+(* ---- source tie (session 3, second wave): the model function IS the source ----
+   Gen/DelayGen.v is regenerated on every run from dawgie/pl/schedule.py
+   (_delay statement by statement, the datetime operations mapped explicitly
+   to the calendar of Model/Delay.v; the due test of defer) by
+   tools/translate/delay2coq.py (fail closed) and PROVED equal to the
+   hand-written model for every argument -- no well-formedness guard.  The
+   recorded findings are properties of the generated definition as well
+   (C20_dom_refuted_on_source). *)
+From DV Require Gen.DelayGen Proofs.DelayGenEq.
+
+Theorem C20_delay_is_source : forall booted when now,
+  DelayGen.delay booted when now = delay booted when now.
+Proof. exact DelayGenEq.delay_gen_eq. Qed.
+Print Assumptions C20_delay_is_source.
+
+Theorem C20_due_is_source : forall d, DelayGen.due d = (d <=? WINDOW_US).
+Proof. exact DelayGenEq.due_gen_eq. Qed.
+Print Assumptions C20_due_is_source.
+
+(* the loop body of defer() over the generated functions *)
+Theorem C20_run_period_is_source : forall now targets id p ps st delays,
+  run_period now targets id (p :: ps) st delays
+  = match DelayGen.delay (s_booted st) p now with
+    | (Err e, _) => (st, delays, Some e)
+    | (NotKnowable, _) => run_period now targets id ps st delays
+    | (Ok _ d, b') =>
+        let st1 := set_booted b' st in
+        if DelayGen.due d then run_period now targets id ps (enqueue targets id st1) delays
+        else run_period now targets id ps st1 (delays ++ [d])
+    end.
+Proof. exact DelayGenEq.run_period_is_source. Qed.
+Print Assumptions C20_run_period_is_source.
+
+(* the open findings, evaluated on the GENERATED definition: dom = 31 on 31
+   March raises ValueError; dom = 20 on 15 March designates 20 April *)
+Example C20_dom_refuted_on_source :
+  fst (DelayGen.delay [] (1%nat, DelayExamples.monthly 31) (mkNow 2026 3 31 0 0)) = Err ValueError /\
+  fst (DelayGen.delay [] (1%nat, DelayExamples.monthly 20) (mkNow 2026 3 15 3600 0))
+  = Ok (mkI (ord 2026 4 20) 3600 0) (36 * DAYUS) /\
+  DelayGen.due (300 * US) = true /\ DelayGen.due (300 * US + 1) = false.
+Proof. vm_compute. repeat split. Qed.
